@@ -17,7 +17,6 @@ import (
 	"net"
 	"net/http"
 	"net/url"
-	"os"
 	"sort"
 	"strconv"
 	"strings"
@@ -42,6 +41,10 @@ type desc struct {
 	// resp
 	Req  string `json:"req,omitempty"` // get11 head11 get10 post11
 	Prog []opd  `json:"prog,omitempty"`
+	Prev []opd  `json:"prev,omitempty"` // when set: served first, to a keep-alive request on the same connection
+	Func bool   `json:"func,omitempty"` // adaptor built with NewFastHTTPHandlerFunc
+	// conv: convert another request into the same http.Request first
+	Reuse bool `json:"reuse,omitempty"`
 	// conv
 	PName  hlib.B      `json:"pname,omitempty"`
 	Method string      `json:"method,omitempty"`
@@ -75,8 +78,19 @@ func handler(w http.ResponseWriter, r *http.Request) {
 			w.Write(o.V)
 		case "flush":
 			w.(http.Flusher).Flush()
+		case "echo": // what the handler sees of the request
+			body, _ := io.ReadAll(r.Body)
+			fmt.Fprintf(w, "%s %s %s %s %s [%s]", r.Method, r.RequestURI, r.Proto, r.Host, r.Header.Get("X-Req"), body)
 		}
 	}
+}
+
+// what "echo" must write, from the request bytes alone
+var echoOf = map[string]string{
+	"get11":  "GET /p?q=1 HTTP/1.1 x q7 []",
+	"head11": "HEAD /p HTTP/1.1 x q7 []",
+	"get10":  "GET /p HTTP/1.0 x q7 []",
+	"post11": "POST /p HTTP/1.1 x q7 [abc]",
 }
 
 // pipeListener: an in-memory net.Listener over net.Pipe (synchronous, with working deadlines; net/http's
@@ -104,11 +118,14 @@ type pipeAddr struct{}
 func (pipeAddr) Network() string { return "pipe" }
 func (pipeAddr) String() string  { return "pipe" }
 
-var lnNet, lnFast *pipeListener
+var lnNet, lnFast, lnFastFunc *pipeListener
 
 func startServers() {
 	lnNet = newPipeListener()
 	lnFast = newPipeListener()
+	lnFastFunc = newPipeListener()
+	fs2 := &fasthttp.Server{Handler: fasthttpadaptor.NewFastHTTPHandlerFunc(handler), Logger: log.New(io.Discard, "", 0)}
+	go fs2.Serve(lnFastFunc)
 	hs := &http.Server{Handler: http.HandlerFunc(handler), ErrorLog: log.New(io.Discard, "", 0)}
 	go hs.Serve(lnNet)
 	fs := &fasthttp.Server{Handler: fasthttpadaptor.NewFastHTTPHandler(http.HandlerFunc(handler)), Logger: log.New(io.Discard, "", 0)}
@@ -116,10 +133,10 @@ func startServers() {
 }
 
 var reqBytes = map[string]string{
-	"get11":  "GET /p?q=1 HTTP/1.1\r\nHost: x\r\nConnection: close\r\n\r\n",
-	"head11": "HEAD /p HTTP/1.1\r\nHost: x\r\nConnection: close\r\n\r\n",
-	"get10":  "GET /p HTTP/1.0\r\nHost: x\r\n\r\n",
-	"post11": "POST /p HTTP/1.1\r\nHost: x\r\nConnection: close\r\nContent-Length: 3\r\n\r\nabc",
+	"get11":  "GET /p?q=1 HTTP/1.1\r\nHost: x\r\nX-Req: q7\r\nConnection: close\r\n\r\n",
+	"head11": "HEAD /p HTTP/1.1\r\nHost: x\r\nX-Req: q7\r\nConnection: close\r\n\r\n",
+	"get10":  "GET /p HTTP/1.0\r\nHost: x\r\nX-Req: q7\r\n\r\n",
+	"post11": "POST /p HTTP/1.1\r\nHost: x\r\nX-Req: q7\r\nConnection: close\r\nContent-Length: 3\r\n\r\nabc",
 }
 
 type robs struct {
@@ -129,32 +146,48 @@ type robs struct {
 	body   []byte
 }
 
-func roundtrip(ln *pipeListener, req string) robs {
-	c, err := ln.Dial()
-	if err != nil {
-		return robs{}
-	}
-	defer c.Close()
-	c.SetDeadline(time.Now().Add(60 * time.Second))
-	go c.Write([]byte(req))
-	raw, _ := io.ReadAll(c)
-	br := bufio.NewReader(bytes.NewReader(raw))
-	method := strings.SplitN(req, " ", 2)[0]
+// readFinal reads the final response (interim 1xx skipped) of one request from the connection
+func readFinal(br *bufio.Reader, method string) (robs, bool) {
 	for i := 0; i < 64; i++ {
 		r, err := http.ReadResponse(br, &http.Request{Method: method})
 		if err != nil {
-			return robs{}
+			return robs{}, true
 		}
 		if r.StatusCode >= 100 && r.StatusCode < 200 && r.StatusCode != 101 {
 			continue // interim response
 		}
 		b, err := io.ReadAll(r.Body)
 		if err != nil {
-			return robs{}
+			return robs{}, true
 		}
-		return robs{ok: true, status: r.StatusCode, hdr: r.Header, body: b}
+		return robs{ok: true, status: r.StatusCode, hdr: r.Header, body: b}, r.Close || r.StatusCode == 101
 	}
-	return robs{}
+	return robs{}, true
+}
+
+// roundtrip serves prog to req; when prev is non-nil it is first served to a keep-alive request on the same
+// connection (usable reports whether the connection survived that first exchange)
+func roundtrip(ln *pipeListener, req string, prog, prev []opd) (out robs, usable bool) {
+	c, err := ln.Dial()
+	if err != nil {
+		return robs{}, false
+	}
+	defer c.Close()
+	c.SetDeadline(time.Now().Add(60 * time.Second))
+	br := bufio.NewReader(c)
+	if prev != nil {
+		cur.Store(&prev)
+		go c.Write([]byte("GET /p1 HTTP/1.1\r\nHost: x\r\nX-Req: first\r\n\r\n"))
+		first, closed := readFinal(br, "GET")
+		if !first.ok || closed {
+			return robs{}, false
+		}
+	}
+	cur.Store(&prog)
+	go c.Write([]byte(req))
+	method := strings.SplitN(req, " ", 2)[0]
+	out, _ = readFinal(br, method)
+	return out, true
 }
 
 // ---------------------------------------------------------------- Coq printing
@@ -162,6 +195,40 @@ func roundtrip(ln *pipeListener, req string) robs {
 // bs prints a byte string compactly: printable ASCII as (s2b "..."), anything else as (h "hex").
 // (Parsing the case files is the dominant cost of a run: about 45 us per source character.)
 func bs(b []byte) string {
+	if len(b) > 256 { // long strings: runs of one byte as (rep c n), the rest in pieces (huge literals overflow coqc's stack)
+		var parts []string
+		lit := 0
+		flush := func(end int) {
+			for lit < end {
+				e := min(end, lit+2000)
+				parts = append(parts, bsShort(b[lit:e:e]))
+				lit = e
+			}
+		}
+		for i := 0; i < len(b); {
+			j := i
+			for j < len(b) && b[j] == b[i] {
+				j++
+			}
+			if j-i >= 64 {
+				flush(i)
+				parts = append(parts, fmt.Sprintf("(rep %d%%N %d%%Z)", b[i], j-i))
+				lit = j
+			}
+			i = j
+		}
+		flush(len(b))
+		if len(parts) == 1 && strings.HasPrefix(parts[0], "(rep") {
+			return parts[0]
+		}
+		if len(parts) > 1 || len(b) > 2000 {
+			return "(List.concat [" + strings.Join(parts, "; ") + "])"
+		}
+	}
+	return bsShort(b)
+}
+
+func bsShort(b []byte) string {
 	for _, c := range b {
 		if c < 0x20 || c > 0x7e || c == '"' {
 			return hlib.Hex(b)
@@ -207,6 +274,8 @@ func coqRobs(o robs) string {
 	return hlib.App("Build_robs", "true", hlib.Z(int64(o.status)), coqHdr(o.hdr, true), bs(o.body))
 }
 
+var echoReq string // set by runResp: what an echo op writes for the request of the case
+
 func coqProg(p []opd) string {
 	it := make([]string, len(p))
 	for i, o := range p {
@@ -223,6 +292,8 @@ func coqProg(p []opd) string {
 			it[i] = hlib.App("Write", bs(o.V))
 		case "flush":
 			it[i] = "Flush"
+		case "echo":
+			it[i] = hlib.App("Write", bss(echoReq))
 		default:
 			panic("bad op " + o.K)
 		}
@@ -278,7 +349,7 @@ func classify(p []opd) progClass {
 			default:
 				h.Del(string(o.N))
 			}
-		case "write":
+		case "write", "echo":
 			commit(200)
 		case "flush":
 			commit(200)
@@ -300,19 +371,34 @@ func classify(p []opd) progClass {
 	return pc
 }
 
+func szClass(n int) string {
+	switch {
+	case n <= 2048:
+		return "s"
+	case n <= 4096:
+		return "m"
+	case n <= 32768:
+		return "l"
+	}
+	return "xl"
+}
+
 func runResp(d desc) hlib.Case {
 	req, ok := reqBytes[d.Req]
 	if !ok {
 		panic("bad req kind " + d.Req)
 	}
 	prog := d.Prog
-	cur.Store(&prog)
-	t0 := time.Now()
-	n := roundtrip(lnNet, req)
-	t1 := time.Now()
-	a := roundtrip(lnFast, req)
-	if os.Getenv("C36_SLOW") != "" && time.Since(t0) > time.Second {
-		fmt.Fprintf(os.Stderr, "slow: nethttp %v adaptor %v req=%s prog=%s\n", t1.Sub(t0), time.Since(t1), d.Req, coqProg(prog))
+	echoReq = echoOf[d.Req]
+	fast := lnFast
+	if d.Func {
+		fast = lnFastFunc
+	}
+	n, ok1 := roundtrip(lnNet, req, prog, d.Prev)
+	a, ok2 := roundtrip(fast, req, prog, d.Prev)
+	if !ok1 || !ok2 {
+		// the first exchange ended the connection on one side (Connection: close set by the first program, 101, ...)
+		return hlib.Case{Kind: "resp-skip", Coq: "CSkip"}
 	}
 	pc := classify(prog)
 	size := 0
@@ -331,7 +417,7 @@ func runResp(d desc) hlib.Case {
 			c.Key = "content-type-on-304"
 		}
 	}
-	c.Sig = fmt.Sprintf("resp:%s:p%d:s%d:f%v:n%d:ls%v:lh%v:sg%v", d.Req, d.Part, a.status, pc.flushed, min(len(prog), 6), pc.lateStatus, pc.lateHeader, pc.singleton)
+	c.Sig = fmt.Sprintf("resp:%s:p%d:s%d:f%v:n%d:ls%v:lh%v:sg%v:ka%v:fn%v:sz%s", d.Req, d.Part, a.status, pc.flushed, min(len(prog), 6), pc.lateStatus, pc.lateHeader, pc.singleton, d.Prev != nil, d.Func, szClass(size))
 	return c
 }
 
@@ -405,6 +491,15 @@ func runConv(d desc) hlib.Case {
 	var ctx fasthttp.RequestCtx
 	ctx.Init(&req, nil, nil)
 	var ar http.Request
+	if d.Reuse { // an http.Request that already holds another conversion: nothing of it may survive
+		var req0 fasthttp.Request
+		raw0 := "POST /previous?x=1 HTTP/1.1\r\nHost: Previous.Host\r\nX-Prev: leftover\r\nX-A: prev\r\nCookie: p=1\r\nContent-Type: prev/type\r\nTransfer-Encoding: chunked\r\n\r\n4\r\nprev\r\n0\r\n\r\n"
+		if err := req0.Read(bufio.NewReader(strings.NewReader(raw0))); err == nil {
+			var ctx0 fasthttp.RequestCtx
+			ctx0.Init(&req0, nil, nil)
+			fasthttpadaptor.ConvertRequest(&ctx0, &ar, true)
+		}
+	}
 	aerr := fasthttpadaptor.ConvertRequest(&ctx, &ar, true)
 	nr, nerr := http.ReadRequest(bufio.NewReader(bytes.NewReader(raw)))
 
@@ -493,7 +588,7 @@ func runConv(d desc) hlib.Case {
 			c.Key = "convert-singleton-collapse"
 		}
 	}
-	c.Sig = fmt.Sprintf("conv:p%d:%s:%s:%s:h%d:b%v:c%v:k%s", d.Part, d.PName, d.Method, d.Proto, min(len(d.Hdrs), 5), len(d.Body) > 0, d.Chunk, c.Key)
+	c.Sig = fmt.Sprintf("conv:p%d:%s:%s:%s:h%d:b%v:c%v:k%s:r%v", d.Part, d.PName, d.Method, d.Proto, min(len(d.Hdrs), 5), len(d.Body) > 0, d.Chunk, c.Key, d.Reuse)
 	return c
 }
 
@@ -591,6 +686,22 @@ func wellBehaved(r *rand.Rand) []opd {
 	return append(p, tail...)
 }
 
+// bigWrites: bodies that cross the buffer sizes on the way (net/http 2 KiB/4 KiB, adaptor pipe buffer 32 KiB)
+func bigWrites(r *rand.Rand) []opd {
+	var p []opd
+	if r.Intn(2) == 0 {
+		p = append(p, opd{K: "set", N: []byte("X-A"), V: []byte("big")})
+	}
+	for n := 1 + r.Intn(3); n > 0; n-- {
+		sz := hlib.Pick(r, []int{2047, 2048, 2049, 4095, 4096, 4097, 32767, 32768, 32769, 70000})
+		p = append(p, opd{K: "write", V: bytes.Repeat([]byte("a"), sz)})
+		if r.Intn(3) == 0 {
+			p = append(p, opd{K: "flush"})
+		}
+	}
+	return p
+}
+
 func anyOrder(r *rand.Rand) []opd {
 	var p []opd
 	for n := 1 + r.Intn(7); n > 0; n-- {
@@ -652,6 +763,25 @@ func corpus() []desc {
 		{WH(999), W("abc")},
 		{Add("X-A", "1"), Set("X-A", "2"), Add("X-A", "3"), Del("X-B"), WH(200), WH(500), W("a"), W("b")},
 	}
+	// the handler reads the request; long bodies; keep-alive; NewFastHTTPHandlerFunc
+	E := opd{K: "echo"}
+	big := func(n int) opd { return opd{K: "write", V: bytes.Repeat([]byte("a"), n)} }
+	for _, rk := range []string{"get11", "head11", "get10", "post11"} {
+		for part := 0; part < 3; part++ {
+			c = append(c, desc{T: "resp", Part: part, Req: rk, Prog: []opd{E}},
+				desc{T: "resp", Part: part, Req: rk, Prog: []opd{Set("X-A", "1"), Fl(), E, W("tail")}, Func: true})
+		}
+	}
+	for _, p := range [][]opd{{big(32768)}, {big(32769), Fl(), big(70000)}, {Fl(), big(4097), big(2049)}, {big(2048), WH(500)}} {
+		c = append(c, desc{T: "resp", Part: 2, Req: "get11", Prog: p}, desc{T: "resp", Part: 0, Req: "get10", Prog: p}, desc{T: "resp", Part: 2, Req: "get11", Prog: p, Prev: []opd{Fl(), big(5000)}})
+	}
+	for _, prev := range [][]opd{{}, {W("first")}, {Set("X-Prev", "p"), WH(404), W("nf")}, {W("a"), Fl(), W("b")}, {WH(204)}, {Set("X-Prev", "p"), Fl()}} {
+		for part := 0; part < 3; part++ {
+			c = append(c, desc{T: "resp", Part: part, Req: "get11", Prog: []opd{Set("X-A", "1"), W("second")}, Prev: prev},
+				desc{T: "resp", Part: part, Req: "post11", Prog: []opd{WH(201), E, Fl(), W("x")}, Prev: prev, Func: true},
+				desc{T: "resp", Part: part, Req: "head11", Prog: []opd{}, Prev: prev})
+		}
+	}
 	for _, p := range progs {
 		for _, rk := range []string{"get11", "head11", "get10"} {
 			for part := 0; part < 3; part++ {
@@ -685,6 +815,7 @@ func corpus() []desc {
 	}
 	for _, d := range convs {
 		d.T = "conv"
+		d.Reuse = len(d.Hdrs)%2 == 0
 		for part := 0; part <= 5; part++ {
 			if part == 3 {
 				for _, pn := range []string{"Connection", "Cookie", "Content-Length", "Cache-Control"} {
@@ -761,6 +892,7 @@ func genConv(r *rand.Rand) desc {
 		}
 	}
 	d.Hdrs = hs
+	d.Reuse = r.Intn(4) == 0
 	d.Part = r.Intn(6)
 	if d.Part == 3 {
 		d.PName = []byte(hlib.Pick(r, []string{"Connection", "Cookie", "Content-Length", "Cache-Control"}))
@@ -772,11 +904,34 @@ func gen(r *rand.Rand, i int) desc {
 	if r.Intn(10) < 3 {
 		return genConv(r)
 	}
-	d := desc{T: "resp", Part: r.Intn(3), Req: hlib.Pick(r, reqKinds)}
-	if r.Intn(10) < 7 {
+	d := desc{T: "resp", Part: r.Intn(3), Req: hlib.Pick(r, reqKinds), Func: r.Intn(4) == 0}
+	switch k := r.Intn(25); {
+	case k == 0:
+		d.Prog = bigWrites(r)
+	case k < 17:
 		d.Prog = wellBehaved(r)
-	} else {
+	default:
 		d.Prog = anyOrder(r)
+	}
+	hasCL := false
+	for _, o := range d.Prog {
+		if strings.EqualFold(string(o.N), "Content-Length") {
+			hasCL = true // the declared length must stay the body's length
+		}
+	}
+	if r.Intn(6) == 0 && !hasCL { // the handler looks at the request
+		pos := r.Intn(len(d.Prog) + 1)
+		d.Prog = append(d.Prog[:pos:pos], append([]opd{{K: "echo"}}, d.Prog[pos:]...)...)
+	}
+	if r.Intn(5) == 0 && d.Req != "get10" { // second exchange on a kept-alive connection
+		if r.Intn(2) == 0 {
+			d.Prev = wellBehaved(r)
+		} else {
+			d.Prev = anyOrder(r)
+		}
+		if d.Prev == nil {
+			d.Prev = []opd{}
+		}
 	}
 	return d
 }
